@@ -907,6 +907,8 @@ pub fn ddl(depth: usize) -> Value {
             "select count(*), sum(k) from big".into(), format!("select id from lv where s = '{long_s}'"), "select id from lv where s = 'ab'".into(),
         ];
         let reopen = vec![8usize, 11];
+        // one RowSet per table (nothing for the compactor to merge), so that the DELETE's delete vector is one large file
+        let e = Engine::Disk { block: 4096, rowset: 1 << 24 };
         tried += 9;
         let short = |i: usize| -> Vec<String> { sqls.iter().map(|q| if q.len() > 200 { format!("{} ... ({} characters)", &q[..120], q.len()) } else { q.clone() }).enumerate().map(|(j, q)| if j == i { q } else { q }).collect() };
         let outs = match run(e, &sqls, &reopen) { Ok(o) => o, Err(err) => return found_raw(tried, e, &short(0), &reopen, sqls.len() - 1, "the session (bulk delete, long value, two reopen cycles) to run".into(), err) };
